@@ -7,6 +7,7 @@ pub mod c03;
 pub mod c04;
 pub mod c05;
 pub mod c07;
+pub mod c08;
 pub mod c09;
 pub mod c20;
 pub mod search_common;
@@ -14,6 +15,7 @@ pub mod c10;
 pub mod c11;
 pub mod c12;
 pub mod c13;
+pub mod c14;
 pub mod c15;
 pub mod c16;
 pub mod c17;
@@ -27,11 +29,13 @@ pub fn run(id: &str, tier: Tier) -> i32 {
         "C04" => c04::run(tier),
         "C05" => c05::run(tier),
         "C07" => c07::run(tier),
+        "C08" => c08::run(tier),
         "C09" => c09::run(tier),
         "C10" => c10::run(tier),
         "C11" => c11::run(tier),
         "C12" => c12::run(tier),
         "C13" => c13::run(tier),
+        "C14" => c14::run(tier),
         "C15" => c15::run(tier),
         "C16" => c16::run(tier),
         "C17" => c17::run(tier),
@@ -52,11 +56,13 @@ pub fn replay(id: &str, case: &Value) -> i32 {
         "C04" => c04::replay(case),
         "C05" => c05::replay(case),
         "C07" => c07::replay(case),
+        "C08" => c08::replay(case),
         "C09" => c09::replay(case),
         "C10" => c10::replay(case),
         "C11" => c11::replay(case),
         "C12" => c12::replay(case),
         "C13" => c13::replay(case),
+        "C14" => c14::replay(case),
         "C15" => c15::replay(case),
         "C16" => c16::replay(case),
         "C17" => c17::replay(case),
